@@ -7,7 +7,7 @@ from vlib import engine, gen, kal, oracle
 
 ID = "C03"
 RULE = ("Named sets of 2..150 sequences (quick; thorough up to 400) on both sides of the 100-sequence switch, with many "
-        "equal-length members and exact duplicates under different names (so the name tie-break decides), pairwise distinct "
+        "equal-length members (and sets of 513..1100 short records of mixed composition: protein as a whole, long runs of records nucleotide on their own) and exact duplicates under different names (so the name tie-break decides), pairwise distinct "
         "names (one case in four uses multi-word FASTA headers in which groups of records share their first word), and a permutation (Hypothesis permutation for small sets, reverse / rotate / seeded shuffle for large); type, "
         "penalties, threads; through read+run+dump and through the CLI (-o, FASTA); the input file is FASTA or, in half of the plain-name cases, an aligned FASTA / MSF / Clustal presentation of the same records (rows in the order under test). Oracle: row(name) and alignment length "
         "identical in both runs, rows in each run's own input order. Non-trivial = permutation != identity, >= 3 sequences, "
@@ -19,7 +19,7 @@ BUDGET = {"quick": dict(examples=500, workers=12, seconds=75), "thorough": dict(
 @st.composite
 def cases(draw, tier):
     big = tier == "thorough"
-    shape = draw(st.sampled_from(["ties", "ties", "ties", "any", "any", "n100", "n100", "many"]))
+    shape = draw(st.sampled_from(["ties", "ties", "ties", "any", "any", "n100", "n100", "many", "many_mixed"]))
     k, alpha = draw(gen.alphabets())
     if shape == "ties":
         # equal lengths: substitutions only + duplicates under different names
@@ -40,6 +40,19 @@ def cases(draw, tier):
                 seqs.append("".join(rnd.choice(alpha) if rnd.random() < 0.2 else c for c in anc))
     elif shape == "many":
         seqs = gen.expand_random(draw(st.integers(0, 2 ** 32 - 1)), alpha, draw(st.sampled_from([511, 512, 513, 1024, 1025])), 2, draw(st.integers(2, 6)))
+    elif shape == "many_mixed":
+        # more records than the readers' 512-entry increments, of mixed composition: most records consist of A, C, G, T only,
+        # the others of protein-only letters, so that the set as a whole is protein by the 1/4 rule while long runs of
+        # records (whichever end up together) are nucleotide on their own: whatever is accumulated per record or per block
+        # of the arrays must not depend on the order
+        n = draw(st.sampled_from([513, 514, 520, 600, 1024, 1025, 1030, 1100]))
+        rnd = random.Random(draw(st.integers(0, 2 ** 32 - 1)))
+        frac = draw(st.sampled_from([0.3, 0.35, 0.5]))
+        L = draw(st.integers(3, 8))
+        seqs = ["".join(rnd.choice("DEFHIKLMPQRSVWY") for _ in range(L)) if rnd.random() < frac else "".join(rnd.choice("ACGT") for _ in range(L))
+                for _ in range(n)]
+        if draw(st.booleans()):
+            seqs.sort(key=lambda x: x[0] in "ACGT")      # the protein-looking records first (a rotation moves them to the end)
     elif shape == "any":
         seqs = draw(gen.seqsets(kind=k, max_n=50, max_len=250))["seqs"]
     else:
